@@ -32,6 +32,15 @@ CLAIMED["C01"] = ("Proof, over an uninterpreted compression function and a ghost
  "messages shorter than 2^61 bytes, callers do not pass slices aliasing the digest's internal buffer.",
  "DESIGN.md §4 C01")
 
+CLAIMED["C03"] = ("Partial proof. Proved: generic ECB encrypt/decrypt equals the per-block definition over an abstract block cipher for every length, separate and exactly-overlapping buffers "
+ "(unbounded loop invariant), frame = dst[0..len(src)]; generic XTS encrypter/decrypter (sequential and batched paths): memory safety, frame, termination and the data-unit structure "
+ "(with a partial last block the block loops leave the last full block for ciphertext stealing; every return has processed the whole unit); the SM4 assembly wrappers for XTS and ECB "
+ "(every call satisfies the routine's assumed precondition, incl. the decrypt tail condition); HCTR universal hash feeds exactly the blocks of M||T zero-padded (one known finding, D4), "
+ "mul/updateBlock memory safety. The fused assembly is assumed and backed by a bounded differential check (labelled bounded). "
+ "Not decided here: byte-level equality of XTS/HCTR/BC/OFBNLF/CTR outputs with their textbook definitions, CBC/CFB/OFB/CTR of crypto/cipher, streaming equivalence, arm64/ppc64 assembly.",
+ "Trusted: encryptSm4Xts/decryptSm4Xts(GB), encryptSm4Ecb, decryptBlocksChain, mul2/doubleTweaks assembly, cipher.Block/concurrentBlocks interface contracts, alias.InexactOverlap (unsafe), subtle.XORBytes.",
+ "DESIGN.md §4 C03")
+
 NOT_APPLICABLE = {
 }
 
